@@ -3,8 +3,9 @@
 (* calls and queries) from every state of the view.                        *)
 EXTENDS NodeTree, Json
 VARIABLE hist
-KindsQ == {<<"a", 0>>, <<"b", 7>>}
-KindsT == {<<"a", 0>>, <<"a", 5>>, <<"b", 7>>, <<"", 0>>}
+\* "~b": a node with a non-text identifier (raw key "b"); text keys never match it
+KindsQ == {<<"a", 0>>, <<"~b", 7>>}
+KindsT == {<<"a", 0>>, <<"b", 7>>, <<"~b", 5>>, <<"", 0>>}
 PosQ3  == -2..3
 PosT   == -3..4
 KeysQ  == {"a", "b", "c"}
